@@ -105,6 +105,7 @@ class Unit:
 
 
 _src_cache = {}
+VACUITY = False      # set by report.vacuity_probe while it generates the probe variant of a unit
 
 
 def load_source(rel):
@@ -328,6 +329,14 @@ def annotate_fn(text, item: Fn, log, where):
     if item.rename:
         new_sig = re.sub(r"\bfn\s+" + re.escape(item.name) + r"\b", "fn " + item.rename, new_sig, count=1)
     contract = ("\n" + item.contract.strip() + "\n") if item.contract.strip() else ""
+    if VACUITY and not item.contract_only:
+        # vacuity probe: same preconditions, postcondition `false` — the verifier must REFUSE it (see report.vacuity_probe)
+        ctext = item.contract.strip()
+        me = re.search(r"(?m)(^|[\s,])ensures\b", ctext)
+        pre = ctext[:me.start() + len(me.group(1))] if me else (ctext + ("\n" if ctext else ""))
+        md = re.search(r"(?m)(^|[\s,])decreases\b.*$", ctext[me.end():] if me else "", re.S)
+        dec = (md.group(0).lstrip(" ,\n") if md else "")
+        contract = "\n" + pre.rstrip() + ("\n" if pre.strip() else "") + "ensures false,\n" + (dec + "\n" if dec else "")
 
     out = []
     last = body_open
@@ -519,7 +528,7 @@ def generate(unit: Unit, root, rules_mod):
         meta["items"].append({"item": where, "lines": [src.line_of(s), src.line_of(e)], "sha256": sha(orig_unmarked), "kind": "fn",
                               "loops": n_loops, "loops_with_invariant": (n_loops if it.loop_fn is not None else len(it.loops)),
                               "loops_by_header": it.loop_fn is not None,
-                              "has_contract": bool(it.contract.strip()), "obligation": it.obligation})
+                              "has_contract": bool(it.contract.strip()), "obligation": it.obligation, "rename": it.rename, "contract_only": bool(it.contract_only)})
     parts.append("\n} // verus!\nfn main() {}\n")
     meta["dropped_hints"] = sorted(set(DROPPED_HINTS))
     return "".join(parts), meta
